@@ -71,7 +71,9 @@ def run(ck):
                                   "how": "ir.EvalBinaryFloat / ir.EvalUnaryFloat differs from Naga.Model.Override on integer operands"},
                                  found_input=True)
             continue
-        vmap = t[len(knob) + 1:]
+        parts = t.split(" ")
+        hslot = int(parts[1].split("=")[1]) if len(parts) > 1 and parts[1].startswith("hslot=") else -1
+        vmap = " ".join(parts[2:]) if len(parts) > 2 else ""
         ck.case(s + vmap, nontrivial=("= (" in s or vmap != ""))
         viols = []
         status = i.split("|")[-1].strip()
@@ -92,13 +94,22 @@ def run(ck):
             viols.append(("bad-value-accepted", re.sub(r"-?[0-9.]+(e\+?[0-9]+)?|[+-]Inf|NaN", "N", sem.split("|")[0])[:100],
                           "a missing / unrepresentable pipeline-constant value is not reported; the value shown was substituted"))
         elif head == "DISAGREE":
-            viols.append(("resolved-value-differs", "values",
+            # which output words differ?  (the value-returning helper's result lives in word `hslot`)
+            mm = re.search(r"wgsl=\[\[([0-9, ]*)\]\] naga=\[\[([0-9, ]*)\]\]", sem)
+            only_helper = False
+            if mm and hslot >= 0:
+                a, b = mm.group(1).split(", "), mm.group(2).split(", ")
+                diff = [k for k in range(min(len(a), len(b))) if a[k] != b[k]]
+                only_helper = diff == [hslot]
+            elif hslot >= 0 and "naga=error" in sem:
+                only_helper = True
+            viols.append(("resolved-value-differs", "helper-result" if only_helper else "values",
                           "executing the resolved module differs from the WGSL program with the overrides substituted"))
         for kind, cls, how in viols:
             fid = None
             for k in ck.known:
                 mt = k.get("match", {})
-                if mt.get("needs_helper") and "fn hfun" not in s:
+                if mt.get("needs_helper") and hslot < 0:
                     continue
                 if re.fullmatch(mt.get("kind", "$^").strip("^$") if mt.get("kind", "").startswith("^") else re.escape(mt.get("kind", "")), kind) \
                         and re.search(mt.get("knob_regex", ".*"), knob) and re.search(mt.get("class_regex", ".*"), cls):
